@@ -519,6 +519,13 @@ func (f *Firewall) inConns(fp firewall.Packet, h *HostInfo, caPool *cert.CAPool,
 
 	c, ok := conntrack.Conns[fp]
 
+	if ok && !c.Expires.After(time.Now()) {
+		// The timer wheel only advances when a new flow is inserted, so an entry can sit in the map long
+		// after its timeout. An expired flow must not be honoured: forget it and fall back to the rules.
+		delete(conntrack.Conns, fp)
+		ok = false
+	}
+
 	if !ok {
 		conntrack.Unlock()
 		return false
